@@ -10,6 +10,7 @@
     derivation the templates rely on (partial). *)
 From Coq Require Import Sorting.Sorted.
 From Verif Require Import Model.GoNames Model.GoStruct Spec.GoPkgWf Proofs.GoStructFacts.
+From Verif Require Import Model.GoImports Spec.GoFileUses Proofs.ImportsFacts.
 Open Scope string_scope.
 Open Scope list_scope.
 
@@ -60,3 +61,40 @@ Print Assumptions C01_suffixes_increase_partial.
 Example C01_row_tags_example :
   row_tags ["id"; "id"; "name"; ""; "id"] = ["id"; "id_2"; "name"; "column_4"; "id_3"].
 Proof. vm_compute. reflexivity. Qed.
+
+(** "Every import is both needed and present" (the import half of C01), as a theorem
+    between the transcription of imports.go (Model/GoImports, compared with the real
+    importer's answers on every generated package through the hook golang.VerifGenerate)
+    and what the templates of gen.go mention (Spec/GoFileUses, compared with the
+    qualifiers go/parser finds in every emitted file): for every set of model structs,
+    enums and queries whose Go types are unqualified names or types of the regenerated
+    type tables (also as slices), without custom overrides, every emitted file - db.go,
+    models.go, querier.go and each query file - imports exactly the packages it
+    mentions, unless a bare parameter or result is a slice of a qualified type (the
+    finding class, refuted below).  Partial: configurations with go_type overrides are
+    decided per case (go build + pkg_wf rules 3 and 4). *)
+Theorem C01_imports_needed_present_partial : forall i file,
+  no_custom (gi_overrides i) -> ok_importer i = true ->
+  (forall q, In q (gi_queries i) -> query_in_slice_class q = false) ->
+  imports_exact i file = true.
+Proof. exact imports_needed_present. Qed.
+Print Assumptions C01_imports_needed_present_partial.
+
+(** the importer's prefix rules and the qualifier of a type agree on every Go type of the
+    regenerated tables (re-checked against postgresql_type.go / mysql_type.go / stdlibTypes) *)
+Theorem C01_table_types_covered :
+  forallb (fun t => ok_typeb t && ok_typeb ("[]" +++ t)) table_go_types = true.
+Proof. exact table_types_ok. Qed.
+Print Assumptions C01_table_types_covered.
+
+Theorem C01_imports_refuted_bare_slice :
+  ok_importer slice_witness = true /\ imports_exact slice_witness "query.sql" = false.
+Proof. exact imports_refuted_bare_slice. Qed.
+Print Assumptions C01_imports_refuted_bare_slice.
+
+Example C01_imports_non_vacuous :
+  ok_importer imports_example = true
+  /\ forallb (fun q => negb (query_in_slice_class q)) (gi_queries imports_example) = true
+  /\ import_paths (imports_of imports_example "query.sql")
+     = ["context"; "database/sql"; "net"; "time"; "github.com/lib/pq"; "github.com/google/uuid"].
+Proof. exact imports_example_ok. Qed.
